@@ -1,0 +1,9 @@
+//go:build verif
+
+package ssh
+
+import "github.com/go-git/go-git/v6/plumbing/transport"
+
+// BuildCommandForVerif exposes buildCommand to the external
+// verification harness.
+func BuildCommandForVerif(req *transport.Request) string { return buildCommand(req) }
